@@ -8,6 +8,7 @@ for l in open(f'{V}/properties.jsonl'):
 rep = []
 # confirmed mechanically (the agent's demonstration fails with the patch) but not a violation of the property as stated: see DESIGN §20
 REJECT = {}
+REJECT_R = {('C05', 'r2'): 'not behaviour preserving: the statistics counters written inside Subject::notify race between two ConcurrentSubjectRouter::notify calls on the same key (read lock only) — C11 and C15 report it, correctly', ('C10', 'r2'): 'not behaviour preserving: the nesting-depth guard written inside Subject::notify races between two ConcurrentSubjectRouter::notify calls on the same key (read lock only) — C11 and C15 report it, correctly'}
 for i in range(1, 21):
     cid = f'C{i:02d}'
     for x, suf in (('b1', 'q'), ('b2', 's')):
@@ -32,6 +33,7 @@ for i in range(1, 21):
     for x, suf in (('r1', 'r16'), ('r2', 'r17')):
         o = f'{ROOT}/{cid}/out/{x}'
         cj = f'{o}/confirm.json'
+        if (cid, x) in REJECT_R: rep.append((cid, x, 'REJECTED: ' + REJECT_R[(cid, x)])); continue
         if not os.path.exists(cj): rep.append((cid, x, 'no confirm.json')); continue
         c = json.load(open(cj))
         if not c.get('ok'): rep.append((cid, x, f'NOT CONFIRMED {c}')); continue
